@@ -82,8 +82,13 @@ def _measure(rec, script, m, line, col, w):
         rec.ev('c15:returned')
         return ms.work, n
     except RecursionError:
-        rec.violate('c15:RecursionError:' + w.get('kind', '?'), 'RecursionError escaped %s at %s:%s'
-                    % (m, line, col), method=m, pos=[line, col], **w)
+        key = 'c15:RecursionError:' + w.get('kind', '?')
+        if m == 'get_references' and w.get('kind', '').startswith('graph:') and w.get('on_attribute'):
+            # listed finding (one mechanism whatever the gadget): reference search from an
+            # attribute of an instance whose attributes/properties are defined cyclically
+            key = 'c15:RecursionError:get_references_on_attribute_of_cyclic_definitions'
+        rec.violate(key, 'RecursionError escaped %s at %s:%s' % (m, line, col), method=m,
+                    pos=[line, col], **w)
     except work.WorkBudgetExceeded:
         rec.violate('c15:budget_exceeded', '%s at %s:%s did not return within %d function entries'
                     % (m, line, col, BUDGET), method=m, pos=[line, col], **w)
@@ -108,10 +113,12 @@ def run(spec):
         script = jedi.Script(text, path=os.path.join(case_dir, main),
                              project=jedi.Project(case_dir))
         works = []
-        for (line, col) in uses:
+        for (line, col, gk) in uses:
             for m in _queries_for(text, line, col):
+                ltext = text.split('\n')[line - 1]
                 wk, n = _measure(rec, script, m, line, col,
-                                 {'case': spec['id'], 'kind': 'graph', 'text': text[:5000]})
+                                 {'case': spec['id'], 'kind': 'graph:' + gk, 'text': text[:5000],
+                                  'on_attribute': '().' in ltext and not ltext.endswith(('.', '('))})
                 if wk is not None:
                     works.append(wk)
         res['digest'] = digest(files)
